@@ -915,6 +915,84 @@ def rule_whole_proof_anchor(ctx, cfg='prod-all', rule='RF-C'):
     yield Ob(rule, 'cl03#whole-proof-anchor', n >= 2, 'places where the whole-proof commitment enters the larger-interval challenges', '', fact=n, expected='>= 2', nontrivial=False)
 
 
+def rule_no_copy_of_input_commitment(ctx, cfg='prod-all', rule='RF-I'):
+    """The provers are handed commitments together with their opening (`CL03Commitment { value, randomness }`): the commitment that gets
+    signed (C), the trusted one.  What they return is serialised and sent.  No member of what a prover builds may be a *copy* of such a
+    parameter (or of its `randomness`): the responses may depend on the opening only through a masked sum.  Decided on every aggregate and
+    every `push` of the prover and its closures: an operand is followed backwards through copies, borrows, clones and `to_owned` on every
+    definition it has (`match n { [_] => C.clone(), _ => fresh }` has two); reaching the parameter itself or its randomness is a violation,
+    its public `value` is not."""
+    from rf_consts import IDENTITY_CALLS
+    prog, eng = ctx.prog(cfg), ctx.eng(cfg)
+    n = 0
+    for fn in (ZKI + 'generate_proof', POKI + 'proof_gen'):
+        b0 = resolve_fn(prog, fn)
+        secrets = {k for k in range(1, b0.arg_count + 1) if 'CL03Commitment' in b0.local_ty(k) and 'Key' not in b0.local_ty(k)}
+        if not secrets:
+            n += 1
+            yield Ob(rule, '%s#no-copy-of-input-commitment' % b0.path, None, 'no commitment with its opening among the parameters', b0.span, fact=[], expected='-')
+            continue
+        hits = []
+        for b in [b0] + list(prog.closures_of(b0.path)):
+            fd = eng.fndep(b.path)
+            is_closure = b.kind == 'Closure'
+
+            def reaches_secret(o, depth=0, seen=None):
+                seen = seen if seen is not None else set()
+                if o.get('k') not in ('copy', 'move') or depth > 12:
+                    return None
+                root, path = fd.resolve_place(o['pl'])
+                if not is_closure and root in secrets:
+                    return (root, path) if (not path or path[0] == 'randomness') else None
+                if is_closure and root == 1:
+                    return None      # (captures: the enclosing function's operands are looked at there)
+                if root in seen or fd.is_param(root):
+                    return None
+                seen.add(root)
+                for kind, bi, x in fd.defs.get(root, []):
+                    if x.get('dst', {}).get('p'):
+                        continue
+                    if kind == 'assign':
+                        rv = x['rv']
+                        src = None
+                        if rv['k'] in ('use', 'cast'):
+                            src = rv['op']
+                        elif rv['k'] in ('ref', 'rawptr'):
+                            src = {'k': 'copy', 'pl': rv['pl']}
+                        elif rv['k'] == 'agg' and rv.get('ak') == 'adt' and rv['name'].split('::')[-1] in ('Option', 'Cow') and len(rv.get('ops', [])) == 1:
+                            src = rv['ops'][0]
+                        if src is not None:
+                            # the part of the source that ends up here
+                            if src.get('k') in ('copy', 'move') and path:
+                                src = {'k': 'copy', 'pl': {'l': src['pl']['l'], 'p': list(src['pl'].get('p', [])) + [{'k': 'field', 'n': q, 'adt': ''} for q in path]}}
+                            r = reaches_secret(src, depth + 1, seen)
+                            if r is not None:
+                                return r
+                    elif kind == 'call':
+                        if (x.get('callee') or '') in IDENTITY_CALLS and x['args']:
+                            r = reaches_secret(x['args'][0], depth + 1, seen)
+                            if r is not None:
+                                return r
+                return None
+            sites = []
+            for bi, st in b.stmts():
+                if st['k'] == 'assign' and st['rv']['k'] == 'agg' and st['rv'].get('ak') == 'adt' and not st['rv']['name'].startswith(('std::', 'core::')):
+                    for f, o in zip(st['rv'].get('fields', []), st['rv']['ops']):
+                        sites.append(('%s.%s' % (st['rv']['name'].split('::')[-1], f), o, st.get('line')))
+            for bi, t in b.calls():
+                if (t.get('callee') or '') == 'std::vec::Vec::<T, A>::push' and len(t['args']) == 2:
+                    sites.append(('push', t['args'][1], t.get('line')))
+            for what, o, line in sites:
+                r = reaches_secret(o)
+                if r is not None:
+                    hits.append({'member': what, 'line': line, 'copy_of': b0.local_name(r[0]) + ''.join('.' + x for x in r[1])})
+        n += 1
+        yield Ob(rule, '%s#no-copy-of-input-commitment' % b0.path, not hits,
+                 'no member of what the prover builds is a copy of a commitment it was given together with its opening', b0.span,
+                 fact={'commitment_parameters': sorted(b0.local_name(k) for k in secrets), 'copies': hits[:4]}, expected='none')
+    yield Ob(rule, 'cl03#provers-examined', n >= 2, 'provers examined', '', fact=n, expected='>= 2', nontrivial=False)
+
+
 # ---------------------------------------------------------------------------------- list fields have the expected number of entries
 def vec_field_paths(prog, root, max_depth=6):
     """paths of the list-typed (Vec) fields of a serialised proof type, not descending into the elements of a list"""
@@ -1840,6 +1918,17 @@ def _shape(zf, op, depth=0, fr=None, za=None):
             d = zf.single_def(pl['l'])
             if d and d[0] == 'assign' and d[2]['rv']['k'] == 'binop':
                 return _shape_binop(zf, d[2]['rv'], depth, fr, za)
+        # a named member of a parameter struct (`params.t`): the parameter under the name it has there
+        fs = [q for q in ps if q['k'] == 'field']
+        if fs and all(q['k'] in ('field', 'deref') for q in ps) and not str(fs[-1]['n']).isdigit():
+            r0 = zf.fd.resolve_place({'l': pl['l']})[0]
+            if zf.fd.is_param(r0):
+                if fr is not None and fr.parent is not None and fr.call is not None and za is not None and r0 - 1 < len(fr.call['args']) \
+                        and fr.call['args'][r0 - 1]['k'] in ('copy', 'move'):
+                    a_ = fr.call['args'][r0 - 1]
+                    return _shape(za.zf(fr.parent.path), {'k': 'copy', 'pl': {'l': a_['pl']['l'], 'p': list(a_['pl'].get('p', [])) + [q for q in ps if q['k'] == 'field']}},
+                                  depth + 1, fr.parent, za)
+                return [str(fs[-1]['n'])]
         return ['?proj']
     l = pl['l']
     if zf.fd.is_param(l):
